@@ -57,6 +57,8 @@ def generate(rng, tier, i):
     # pre-emption: the job thread is parked at its k-th source line (counted while a buffered group is waiting) and an
     # application thread submits a group for the same buffer exactly then
     scn['reuse_lists'] = rng.random() < 0.5
+    # an unrelated periodic timer of the application on the sending ECU (its expiries interleave with the buffers' deadlines)
+    scn['periodic_timer_ms'] = rng.choice([None, None, 7, 30, 100])
     if rng.random() < 0.2:
         cand = [c for c in calls if c['ctx'] == 'app' and c.get('on_tx') is None]
         for c in rng.sample(cand, min(len(cand), rng.randint(1, 2))):
@@ -222,6 +224,8 @@ def execute(scn, keep_log=False, hook=None):
             for l in common.listeners_bound(w.stacks['R'].cfg, da) if (da == 255 or common.stack_owns(w.stacks['R'].cfg, da)) else []:
                 exp[('R', l, cpgn, sa, bytes(data))] += 1
 
+    if scn.get('periodic_timer_ms'):
+        S.ecu.add_timer(scn['periodic_timer_ms'] / 1000.0, lambda cookie: True)
     base = sim.now
     txn = [0]
     nest = [0]
